@@ -6,7 +6,9 @@ import (
 	"fmt"
 	"os"
 	"runtime"
+	"runtime/debug"
 	"sort"
+	"strconv"
 	"strings"
 	"sync"
 	"sync/atomic"
@@ -39,15 +41,21 @@ type worker struct {
 	mu   sync.Mutex // guards out
 	out  Outcome
 	done atomic.Bool
+	finishing atomic.Bool
+
+	lastPanic []*PanicInfo // per thread, written only by that thread
 }
 
 func newWorker(job Job) *worker {
 	n := len(job.Case.Threads) + 1 // last slot: the coordinating goroutine (final stop / close)
-	w := &worker{job: job, c: job.Case, tr: newTracker(n)}
+	w := &worker{job: job, c: job.Case, tr: newTracker(n), lastPanic: make([]*PanicInfo, n)}
 	return w
 }
 
 func (w *worker) finish() {
+	if !w.finishing.CompareAndSwap(false, true) {
+		select {} // another goroutine is already writing the outcome and exiting
+	}
 	w.mu.Lock()
 	w.out.Done = true
 	w.out.Peak = int(w.tr.peak.Load())
@@ -180,12 +188,60 @@ func (w *worker) do(i int, name string, stopLike bool, f func() string) (res str
 	w.tr.begin(i, name, stopLike)
 	defer func() {
 		if p := recover(); p != nil {
+			mark := raceLogSize() // first thing: everything the race detector says from here on is unreliable
+			defer func() { w.lastPanic[i].RaceLogBytes = mark }()
 			res = "panic: " + firstLine(fmt.Sprint(p))
+			st := string(debug.Stack())
+			w.lastPanic[i] = &PanicInfo{Thread: i, Op: name, Msg: firstLine(fmt.Sprint(p)), Stack: clip(st, 6000)}
+			if fr := libFramesOfStacks(st); len(fr) > 0 {
+				w.lastPanic[i].Frame = fr[0]
+			}
 		}
 		w.tr.end(i)
 	}()
 	return f()
 }
+
+// panicked must be called by a thread when an op's result is a panic the sequential reference did not show:
+// it records the panic and ends the child immediately.
+func (w *worker) panicked(i int, res string) {
+	p := w.lastPanic[i]
+	if p == nil {
+		p = &PanicInfo{Thread: i, Msg: res}
+	}
+	p.Phase, _ = w.tr.phase.Load().(string)
+	w.mu.Lock()
+	w.out.Panic = p
+	w.mu.Unlock()
+	w.finish()
+}
+
+// vet ends the child if, in the concurrent phase, an op panicked although the sequential run of the same op did not.
+func (w *worker) vet(i int, r string, conc bool, ref []string, k int) {
+	if !conc || !isPanic(r) {
+		return
+	}
+	if ref != nil && k < len(ref) && ref[k] == r {
+		return
+	}
+	w.panicked(i, r)
+}
+
+// raceLogSize returns the current size of this process's race log (GORACE log_path), or -1.
+func raceLogSize() int64 {
+	for _, f := range strings.Fields(os.Getenv("GORACE")) {
+		if strings.HasPrefix(f, "log_path=") {
+			st, err := os.Stat(strings.TrimPrefix(f, "log_path=") + "." + strconv.Itoa(os.Getpid()))
+			if err != nil {
+				return 0 // no report written so far
+			}
+			return st.Size()
+		}
+	}
+	return -1
+}
+
+func isPanic(res string) bool { return strings.HasPrefix(res, "panic: ") }
 
 func firstLine(s string) string {
 	if i := strings.IndexByte(s, '\n'); i >= 0 {
